@@ -1077,6 +1077,9 @@ impl Compiler {
                     });
                 }
 
+                // ++/-- operate on ToNumber(old value): '5'++ is 6, not '51'
+                self.builder.emit(Op::Plus { dst, src: dst });
+
                 if !update.prefix {
                     // Postfix: save original value
                     let original = self.builder.alloc_register()?;
@@ -1159,6 +1162,9 @@ impl Compiler {
 
                 // Load current value
                 self.emit_get_property(dst, obj_reg, &key_info)?;
+
+                // ++/-- operate on ToNumber(old value)
+                self.builder.emit(Op::Plus { dst, src: dst });
 
                 let one = self.builder.alloc_register()?;
                 self.builder.emit(Op::LoadInt { dst: one, value: 1 });
